@@ -197,6 +197,19 @@ def assignment_world(idx):
         for r in c01.negative_reads(tid, chrom, strand, ex):
             reads.append(dict({"name": "n%d" % k, "chr": chrom, "blocks": [list(b) for b in r["blocks"]]}, **r["extras"]))
             k += 1
+    # reads with an alternative (unannotated, non-overlapping) terminal exon, full-length and truncated at the other side: the
+    # read then has another number of introns than the isoform it is compared with; both sides, so that the mirror image exists
+    for tid, (chrom, strand, ex, g) in iso.items():
+        if len(ex) < 3 or g != "G1":
+            continue
+        alt_last = (ex[-1][1] + 301, ex[-1][1] + 520)
+        alt_first = (ex[0][0] - 520, ex[0][0] - 301)
+        for nm_, bl in (("altlast_full", list(ex[:-1]) + [alt_last]), ("altlast_trunc", list(ex[1:-1]) + [alt_last]),
+                        ("altfirst_full", [alt_first] + list(ex[1:])), ("altfirst_trunc", [alt_first] + list(ex[1:-1]))):
+            if bl[0][0] < 1 or len(bl) < 2:
+                continue
+            reads.append({"name": "%s_%s_%d" % (nm_, tid, k), "chr": chrom, "blocks": [list(b) for b in bl], "reverse": strand == "-"})
+            k += 1
     reads.append({"name": "edge", "chr": "chr2", "blocks": [[1, 300], [701, 900]], "reverse": False})
     w = dict(w, reads=reads)
     syn.plant_for_transcripts(w)
